@@ -1,7 +1,579 @@
 package main
 
-import "fmt"
+// The rewriter ("mcrewrite" in DESIGN.md §1.2): generates, from /repo's CURRENT working tree,
+// instrumented copies of the engine's source files for the overlay:
+//   - import swaps (sync/atomic, x/sys/unix, errgroup, time, sync, goroutine pool) to shims under
+//     internal/verifmc/..., keeping the local package name so call sites stay untouched;
+//   - AST rewrites of blocking constructs (bare channel receive/send statements, select without
+//     default, go statements) into scheduler-visible operations;
+//   - a generated alias file for the x/sys/unix shim covering every unix.X the rewritten files use.
+// It fails loudly (the check exits 2) on constructs it cannot preserve mechanically.
 
+import (
+	"bytes"
+	"fmt"
+	"go/ast"
+	"go/build"
+	"go/parser"
+	"go/printer"
+	"go/token"
+	"os"
+	"os/exec"
+	"path/filepath"
+	"sort"
+	"strconv"
+	"strings"
+	"sync"
+)
+
+const verifmcPath = "github.com/panjf2000/gnet/v2/internal/verifmc/"
+
+var importSwaps = map[string][2]string{ // import path -> {shim package, local name}
+	"sync/atomic":                {"mcatomic", "atomic"},
+	"golang.org/x/sys/unix":      {"mcsys", "unix"},
+	"golang.org/x/sync/errgroup": {"mcerrgroup", "errgroup"},
+	"time":                       {"mctime", "time"},
+	"sync":                       {"mcsync", "sync"},
+	"github.com/panjf2000/gnet/v2/pkg/pool/goroutine": {"mcgopool", "goroutine"},
+}
+
+// per package: which swaps apply
+var defaultInstrPkgs = []string{".", "pkg/netpoll", "pkg/socket", "pkg/io", "pkg/queue"}
+
+func swapsFor(pkg string) map[string]bool {
+	switch pkg {
+	case ".":
+		return map[string]bool{"sync/atomic": true, "golang.org/x/sys/unix": true, "golang.org/x/sync/errgroup": true, "time": true, "sync": true,
+			"github.com/panjf2000/gnet/v2/pkg/pool/goroutine": true}
+	case "pkg/queue":
+		return map[string]bool{"sync/atomic": true}
+	default:
+		return map[string]bool{"sync/atomic": true, "golang.org/x/sys/unix": true}
+	}
+}
+
+type rewriter struct {
+	fset      *token.FileSet
+	unixNames map[string]bool
+	timeNames map[string]bool
+	selCount  int
+	errs      []string
+	needSched bool
+	file      string
+}
+
+func (r *rewriter) errf(pos token.Pos, format string, a ...interface{}) {
+	r.errs = append(r.errs, fmt.Sprintf("%s: %s", r.fset.Position(pos), fmt.Sprintf(format, a...)))
+}
+
+func schedCall(fn string, args ...ast.Expr) *ast.CallExpr {
+	return &ast.CallExpr{Fun: &ast.SelectorExpr{X: ast.NewIdent("mcsched"), Sel: ast.NewIdent(fn)}, Args: args}
+}
+
+func isRecv(e ast.Expr) (*ast.UnaryExpr, bool) {
+	for {
+		if p, ok := e.(*ast.ParenExpr); ok {
+			e = p.X
+			continue
+		}
+		break
+	}
+	u, ok := e.(*ast.UnaryExpr)
+	return u, ok && u.Op == token.ARROW
+}
+
+// rewriteStmts rewrites a statement list in place.
+func (r *rewriter) rewriteStmts(list []ast.Stmt) {
+	for i, s := range list {
+		list[i] = r.rewriteStmt(s)
+	}
+}
+
+func (r *rewriter) rewriteStmt(s ast.Stmt) ast.Stmt {
+	switch st := s.(type) {
+	case *ast.ExprStmt:
+		if u, ok := isRecv(st.X); ok {
+			r.needSched = true
+			r.rewriteExpr(u.X)
+			return &ast.ExprStmt{X: schedCall("RecvDiscard", u.X)}
+		}
+		r.rewriteExpr(st.X)
+	case *ast.SendStmt:
+		r.needSched = true
+		r.rewriteExpr(st.Chan)
+		r.rewriteExpr(st.Value)
+		return &ast.ExprStmt{X: schedCall("SendAny", st.Chan, st.Value)}
+	case *ast.GoStmt:
+		r.needSched = true
+		r.rewriteExpr(st.Call)
+		if fl, ok := st.Call.Fun.(*ast.FuncLit); ok && len(st.Call.Args) == 0 {
+			return &ast.ExprStmt{X: schedCall("Go", &ast.BasicLit{Kind: token.STRING, Value: `"go"`}, fl)}
+		}
+		for _, a := range st.Call.Args {
+			simple := true
+			ast.Inspect(a, func(n ast.Node) bool {
+				if _, ok := n.(*ast.CallExpr); ok {
+					simple = false
+				}
+				return true
+			})
+			if !simple {
+				r.errf(st.Pos(), "go statement with call arguments cannot be rewritten mechanically")
+			}
+		}
+		body := &ast.BlockStmt{List: []ast.Stmt{&ast.ExprStmt{X: st.Call}}}
+		return &ast.ExprStmt{X: schedCall("Go", &ast.BasicLit{Kind: token.STRING, Value: `"go"`}, &ast.FuncLit{Type: &ast.FuncType{Params: &ast.FieldList{}}, Body: body})}
+	case *ast.SelectStmt:
+		hasDefault := false
+		for _, c := range st.Body.List {
+			cc := c.(*ast.CommClause)
+			if cc.Comm == nil {
+				hasDefault = true
+			}
+			r.rewriteStmts(cc.Body)
+			if _, ok := cc.Comm.(*ast.SendStmt); ok && !hasDefault {
+				// a send case in a blocking select keeps its meaning under the polling form too
+			}
+		}
+		if hasDefault {
+			return st
+		}
+		r.needSched = true
+		r.selCount++
+		label := fmt.Sprintf("_mcsel%d", r.selCount)
+		for _, c := range st.Body.List {
+			cc := c.(*ast.CommClause)
+			r.retargetBreaks(cc.Body, label)
+			cc.Body = append(cc.Body, &ast.BranchStmt{Tok: token.BREAK, Label: ast.NewIdent(label)})
+		}
+		st.Body.List = append(st.Body.List, &ast.CommClause{Comm: nil, Body: []ast.Stmt{&ast.ExprStmt{X: schedCall("Block")}}})
+		loop := &ast.ForStmt{Body: &ast.BlockStmt{List: []ast.Stmt{st}}}
+		return &ast.LabeledStmt{Label: ast.NewIdent(label), Stmt: loop}
+	case *ast.BlockStmt:
+		r.rewriteStmts(st.List)
+	case *ast.IfStmt:
+		if st.Init != nil {
+			st.Init = r.rewriteStmt(st.Init)
+		}
+		r.rewriteExpr(st.Cond)
+		r.rewriteStmts(st.Body.List)
+		if st.Else != nil {
+			st.Else = r.rewriteStmt(st.Else)
+		}
+	case *ast.ForStmt:
+		if st.Init != nil {
+			st.Init = r.rewriteStmt(st.Init)
+		}
+		if st.Cond != nil {
+			r.rewriteExpr(st.Cond)
+		}
+		if st.Post != nil {
+			st.Post = r.rewriteStmt(st.Post)
+		}
+		r.rewriteStmts(st.Body.List)
+	case *ast.RangeStmt:
+		r.rewriteExpr(st.X)
+		r.rewriteStmts(st.Body.List)
+	case *ast.SwitchStmt:
+		if st.Init != nil {
+			st.Init = r.rewriteStmt(st.Init)
+		}
+		if st.Tag != nil {
+			r.rewriteExpr(st.Tag)
+		}
+		for _, c := range st.Body.List {
+			cc := c.(*ast.CaseClause)
+			for _, e := range cc.List {
+				r.rewriteExpr(e)
+			}
+			r.rewriteStmts(cc.Body)
+		}
+	case *ast.TypeSwitchStmt:
+		if st.Init != nil {
+			st.Init = r.rewriteStmt(st.Init)
+		}
+		st.Assign = r.rewriteStmt(st.Assign)
+		for _, c := range st.Body.List {
+			r.rewriteStmts(c.(*ast.CaseClause).Body)
+		}
+	case *ast.LabeledStmt:
+		st.Stmt = r.rewriteStmt(st.Stmt)
+	case *ast.AssignStmt:
+		for _, e := range st.Rhs {
+			if _, ok := isRecv(e); ok {
+				r.errf(st.Pos(), "channel receive in an assignment cannot be rewritten mechanically")
+			}
+			r.rewriteExpr(e)
+		}
+		for _, e := range st.Lhs {
+			r.rewriteExpr(e)
+		}
+	case *ast.ReturnStmt:
+		for _, e := range st.Results {
+			r.rewriteExpr(e)
+		}
+	case *ast.DeferStmt:
+		r.rewriteExpr(st.Call)
+	case *ast.DeclStmt:
+		if gd, ok := st.Decl.(*ast.GenDecl); ok {
+			for _, sp := range gd.Specs {
+				if vs, ok := sp.(*ast.ValueSpec); ok {
+					for _, e := range vs.Values {
+						r.rewriteExpr(e)
+					}
+				}
+			}
+		}
+	case *ast.IncDecStmt:
+		r.rewriteExpr(st.X)
+	}
+	return s
+}
+
+// rewriteExpr descends into function literals and flags receives in expression position.
+func (r *rewriter) rewriteExpr(e ast.Expr) {
+	if e == nil {
+		return
+	}
+	ast.Inspect(e, func(n ast.Node) bool {
+		switch x := n.(type) {
+		case *ast.FuncLit:
+			r.rewriteStmts(x.Body.List)
+			return false
+		case *ast.UnaryExpr:
+			if x.Op == token.ARROW {
+				r.errf(x.Pos(), "channel receive inside an expression cannot be rewritten mechanically")
+			}
+		}
+		return true
+	})
+}
+
+// retargetBreaks makes unlabelled breaks of a select case body leave the polling loop, and
+// refuses unlabelled continues (they would bind to the polling loop).
+func (r *rewriter) retargetBreaks(list []ast.Stmt, label string) {
+	var walk func(n ast.Node, inLoop, inSwitch bool)
+	walk = func(n ast.Node, inLoop, inSwitch bool) {
+		switch x := n.(type) {
+		case nil:
+		case *ast.BranchStmt:
+			if x.Label == nil && x.Tok == token.BREAK && !inLoop && !inSwitch {
+				x.Label = ast.NewIdent(label)
+			}
+			if x.Label == nil && x.Tok == token.CONTINUE && !inLoop {
+				r.errf(x.Pos(), "unlabelled continue inside a select case cannot be rewritten mechanically")
+			}
+		case *ast.BlockStmt:
+			for _, s := range x.List {
+				walk(s, inLoop, inSwitch)
+			}
+		case *ast.IfStmt:
+			walk(x.Body, inLoop, inSwitch)
+			if x.Else != nil {
+				walk(x.Else, inLoop, inSwitch)
+			}
+		case *ast.ForStmt:
+			walk(x.Body, true, inSwitch)
+		case *ast.RangeStmt:
+			walk(x.Body, true, inSwitch)
+		case *ast.SwitchStmt:
+			for _, c := range x.Body.List {
+				for _, s := range c.(*ast.CaseClause).Body {
+					walk(s, inLoop, true)
+				}
+			}
+		case *ast.TypeSwitchStmt:
+			for _, c := range x.Body.List {
+				for _, s := range c.(*ast.CaseClause).Body {
+					walk(s, inLoop, true)
+				}
+			}
+		case *ast.SelectStmt:
+			for _, c := range x.Body.List {
+				for _, s := range c.(*ast.CommClause).Body {
+					walk(s, inLoop, true)
+				}
+			}
+		case *ast.LabeledStmt:
+			walk(x.Stmt, inLoop, inSwitch)
+		}
+	}
+	for _, s := range list {
+		walk(s, false, false)
+	}
+}
+
+func matchContext(tags string, race bool) *build.Context {
+	ctx := build.Default
+	ctx.GOOS, ctx.GOARCH = "linux", "amd64"
+	ctx.CgoEnabled = true
+	ctx.BuildTags = nil
+	for _, t := range strings.Split(tags, ",") {
+		if t = strings.TrimSpace(t); t != "" {
+			ctx.BuildTags = append(ctx.BuildTags, t)
+		}
+	}
+	if race {
+		ctx.BuildTags = append(ctx.BuildTags, "race")
+	}
+	return &ctx
+}
+
+// instrument rewrites the engine packages of unit u into dir and adds them to the overlay.
 func instrument(dir string, u Unit, repl map[string]string) error {
-	return fmt.Errorf("instrumenter not built yet")
+	pkgs := u.InstrPkgs
+	if len(pkgs) == 0 {
+		pkgs = defaultInstrPkgs
+	}
+	ctx := matchContext(u.Tags, u.Race)
+	fset := token.NewFileSet()
+	unixUsed := map[string]bool{}
+	timeUsed := map[string]bool{}
+	var allErrs []string
+	for _, pkg := range pkgs {
+		pdir := filepath.Join(repoDir, pkg)
+		ents, err := os.ReadDir(pdir)
+		if err != nil {
+			return err
+		}
+		swaps := swapsFor(pkg)
+		for _, e := range ents {
+			name := e.Name()
+			if e.IsDir() || !strings.HasSuffix(name, ".go") || strings.HasSuffix(name, "_test.go") {
+				continue
+			}
+			if ok, err := ctx.MatchFile(pdir, name); err != nil || !ok {
+				continue
+			}
+			src := filepath.Join(pdir, name)
+			f, err := parser.ParseFile(fset, src, nil, parser.ParseComments)
+			if err != nil {
+				return fmt.Errorf("parse %s: %v", src, err)
+			}
+			changed := false
+			locals := map[string]string{} // local name -> original import path (swapped ones)
+			for _, im := range f.Imports {
+				p, _ := strconv.Unquote(im.Path.Value)
+				sw, ok := importSwaps[p]
+				if !ok || !swaps[p] {
+					continue
+				}
+				local := sw[1]
+				if im.Name != nil {
+					local = im.Name.Name
+				} else {
+					im.Name = ast.NewIdent(local)
+				}
+				im.Path.Value = strconv.Quote(verifmcPath + sw[0])
+				im.EndPos = 0
+				locals[local] = p
+				changed = true
+			}
+			// collect unix.X / time.X selectors
+			ast.Inspect(f, func(n ast.Node) bool {
+				if se, ok := n.(*ast.SelectorExpr); ok {
+					if id, ok := se.X.(*ast.Ident); ok && id.Obj == nil {
+						switch locals[id.Name] {
+						case "golang.org/x/sys/unix":
+							unixUsed[se.Sel.Name] = true
+						case "time":
+							timeUsed[se.Sel.Name] = true
+						}
+					}
+				}
+				return true
+			})
+			rw := &rewriter{fset: fset, file: src}
+			if pkg == "." || u.RewriteAllChans {
+				for _, d := range f.Decls {
+					if fd, ok := d.(*ast.FuncDecl); ok && fd.Body != nil {
+						rw.rewriteStmts(fd.Body.List)
+					}
+				}
+			}
+			allErrs = append(allErrs, rw.errs...)
+			if rw.needSched {
+				changed = true
+				spec := &ast.ImportSpec{Name: ast.NewIdent("mcsched"), Path: &ast.BasicLit{Kind: token.STRING, Value: strconv.Quote(verifmcPath + "sched")}}
+				added := false
+				for _, d := range f.Decls {
+					if gd, ok := d.(*ast.GenDecl); ok && gd.Tok == token.IMPORT {
+						gd.Specs = append(gd.Specs, spec)
+						if !gd.Lparen.IsValid() {
+							gd.Lparen = gd.Pos()
+							gd.Rparen = gd.End()
+						}
+						added = true
+						break
+					}
+				}
+				if !added {
+					f.Decls = append([]ast.Decl{&ast.GenDecl{Tok: token.IMPORT, Specs: []ast.Spec{spec}}}, f.Decls...)
+				}
+				f.Imports = append(f.Imports, spec)
+			}
+			if !changed {
+				continue
+			}
+			var buf bytes.Buffer
+			if err := (&printer.Config{Mode: printer.UseSpaces | printer.TabIndent, Tabwidth: 8}).Fprint(&buf, fset, f); err != nil {
+				return fmt.Errorf("print %s: %v", src, err)
+			}
+			out := filepath.Join(dir, "instr", pkg, name)
+			if err := os.MkdirAll(filepath.Dir(out), 0o755); err != nil {
+				return err
+			}
+			if err := os.WriteFile(out, buf.Bytes(), 0o644); err != nil {
+				return err
+			}
+			repl[src] = out
+		}
+	}
+	if len(allErrs) > 0 {
+		return fmt.Errorf("rewriter cannot preserve these constructs:\n  %s", strings.Join(allErrs, "\n  "))
+	}
+	// generated alias files for the unix and time shims
+	gen, err := genAliases("mcsys", "golang.org/x/sys/unix", "unix", unixUsed, mcsysIntercepted)
+	if err != nil {
+		return err
+	}
+	gp := filepath.Join(dir, "instr", "mcsys_aliases_gen.go")
+	if err := os.WriteFile(gp, gen, 0o644); err != nil {
+		return err
+	}
+	repl[filepath.Join(repoDir, "internal", "verifmc", "mcsys", "aliases_gen.go")] = gp
+	gen, err = genAliases("mctime", "time", "time", timeUsed, mctimeIntercepted)
+	if err != nil {
+		return err
+	}
+	gp = filepath.Join(dir, "instr", "mctime_aliases_gen.go")
+	if err := os.WriteFile(gp, gen, 0o644); err != nil {
+		return err
+	}
+	repl[filepath.Join(repoDir, "internal", "verifmc", "mctime", "aliases_gen.go")] = gp
+	return nil
+}
+
+// names defined by hand in the shims (everything else used by gnet is aliased to the real package)
+var mcsysIntercepted = map[string]bool{
+	"Read": true, "Write": true, "Writev": true, "Readv": true, "Recvfrom": true, "Sendto": true, "Send": true,
+	"Accept4": true, "Accept": true, "Close": true, "Socket": true, "Bind": true, "Listen": true, "Connect": true,
+	"EpollCreate1": true, "EpollCtl": true, "EpollWait": true, "Eventfd": true, "FcntlInt": true, "Dup": true,
+	"Syscall6": true, "RawSyscall6": true,
+}
+
+var mctimeIntercepted = map[string]bool{
+	"Timer": true, "Ticker": true, "NewTimer": true, "NewTicker": true, "After": true, "AfterFunc": true, "Sleep": true, "Tick": true,
+}
+
+var (
+	pkgIndexMu    sync.Mutex
+	pkgIndexCache = map[string]map[string]string{}
+)
+
+// pkgIndex maps the exported top-level names of a package (for linux/amd64) to their kind.
+func pkgIndex(importPath string) (map[string]string, error) {
+	pkgIndexMu.Lock()
+	defer pkgIndexMu.Unlock()
+	if m, ok := pkgIndexCache[importPath]; ok {
+		return m, nil
+	}
+	cmd := exec.Command("go", "list", "-f", "{{.Dir}}", importPath)
+	cmd.Dir = repoDir
+	cmd.Env = goEnv()
+	out, err := cmd.Output()
+	if err != nil {
+		return nil, fmt.Errorf("go list %s: %v", importPath, err)
+	}
+	pdir := strings.TrimSpace(string(out))
+	ctx := matchContext("", false)
+	ents, err := os.ReadDir(pdir)
+	if err != nil {
+		return nil, err
+	}
+	idx := map[string]string{}
+	fset := token.NewFileSet()
+	for _, e := range ents {
+		n := e.Name()
+		if !strings.HasSuffix(n, ".go") || strings.HasSuffix(n, "_test.go") {
+			continue
+		}
+		if ok, _ := ctx.MatchFile(pdir, n); !ok {
+			continue
+		}
+		f, err := parser.ParseFile(fset, filepath.Join(pdir, n), nil, parser.SkipObjectResolution)
+		if err != nil {
+			return nil, err
+		}
+		for _, d := range f.Decls {
+			switch x := d.(type) {
+			case *ast.FuncDecl:
+				if x.Recv == nil {
+					idx[x.Name.Name] = "func"
+				}
+			case *ast.GenDecl:
+				for _, sp := range x.Specs {
+					switch s := sp.(type) {
+					case *ast.TypeSpec:
+						idx[s.Name.Name] = "type"
+					case *ast.ValueSpec:
+						k := "var"
+						if x.Tok == token.CONST {
+							k = "const"
+						}
+						for _, nm := range s.Names {
+							idx[nm.Name] = k
+						}
+					}
+				}
+			}
+		}
+	}
+	pkgIndexCache[importPath] = idx
+	return idx, nil
+}
+
+func genAliases(pkgName, importPath, local string, used map[string]bool, intercepted map[string]bool) ([]byte, error) {
+	idx, err := pkgIndex(importPath)
+	if err != nil {
+		return nil, err
+	}
+	var names []string
+	for n := range used {
+		names = append(names, n)
+	}
+	sort.Strings(names)
+	var b bytes.Buffer
+	fmt.Fprintf(&b, "// Code generated by /verif/cmd/check (rewriter); DO NOT EDIT.\n\npackage %s\n\nimport real %q\n\n", pkgName, importPath)
+	for _, n := range names {
+		if intercepted[n] {
+			continue
+		}
+		switch idx[n] {
+		case "const":
+			fmt.Fprintf(&b, "const %s = real.%s\n", n, n)
+		case "type":
+			fmt.Fprintf(&b, "type %s = real.%s\n", n, n)
+		case "var", "func":
+			fmt.Fprintf(&b, "var %s = real.%s\n", n, n)
+		default:
+			return nil, fmt.Errorf("rewriter: %s.%s is used by gnet but not found in the real package", local, n)
+		}
+	}
+	fmt.Fprintf(&b, "\nvar _ = real.%s\n", anyName(idx))
+	return b.Bytes(), nil
+}
+
+func anyName(idx map[string]string) string {
+	var ns []string
+	for n, k := range idx {
+		if (k == "func" || k == "var") && ast.IsExported(n) {
+			ns = append(ns, n)
+		}
+	}
+	sort.Strings(ns)
+	if len(ns) == 0 {
+		return "X"
+	}
+	return ns[0]
 }
